@@ -1,13 +1,12 @@
 /-
-  GM.Spec.QuoteHyp — the (former) hypotheses of the whole-run C08 theorem as ONE executable test on a source, for the
+  GM.Spec.QuoteHyp — the FORMER hypotheses of the whole-run C08 theorem as ONE executable test on a source, for the
   driver (op `blocks quotesimhyp`): the class of sources (no tab, no CR, ends with a line feed, no byte that can start
   a list item) and, evaluated on the model's run on the source ITSELF: it ends normally, has read all lines, and its
-  node store is well shaped. Since round 2 of the package only ONE clause of "well shaped" is still an assumption of
-  `GM.Props.C08.quote_prefix_simulation_class` — no stored line / info / closure segment is empty
-  (`GM.Blocks.SegsNE`); the others (normal end, all lines read, Document without lines and nobody's child, no List /
-  ListItem node) are theorems (`GM.Props.C08.quote_prefix_run`). The test still evaluates all of them (a superset).
+  node store is well shaped. All of this is PROVED for the class now (`GM.Props.C08.quote_prefix_run`,
+  `original_run_well_shaped`; `quote_prefix_simulation_class` assumes nothing), so the test is a REGRESSION ORACLE of
+  the model: it can only fail if the executable model and the proved statements diverge.
   Core Lean only; no proofs here (`GM.Blocks.quoteHyp_of_B` in GM/Proof/QuoteSimHypB.lean shows that it implies the
-  theorem's hypotheses).
+  former hypotheses).
 -/
 import GM.Model.Blocks
 
